@@ -27,6 +27,7 @@ func TickerCase(c *core.Case) {
 	real.Start()
 	defer real.Stop()
 	model := NewVTicker()
+	model.Start()
 	h, rd, st := uint64(1), uint32(1), cstypes.RoundStepNewHeight
 	var script []string
 	empty := *consensus.EmptyTimeoutInfo()
